@@ -36,6 +36,10 @@ def generate(ctx):
         elif kind == "connection":
             d.update(conn=fac.CONNECTIONS[(i // 5) % 4], syn=rng.choice(fac.SYNAPSES), delayed=rng.random() < 0.6,
                      c0={"dt": rng.choice(DTS), "batchsz": rng.randint(1, 3), "synapse": rng.choice(fac.SYNAPSES)})
+            if d["delayed"]:
+                # the connection's maximum delay, constructor argument on one twin and an assignment through the synapse on the
+                # other (delay=0.0 is documented to still register a learned-delay parameter that delays nothing)
+                d["c0"]["maxdelay"] = rng.choice([0.0, 0.0, 1.0, 2.0, 2.0, 3.0])
         elif kind == "reducer":
             d.update(red=rng.choice(["nearest", "cumulative", "event", "passthrough", "ema", "ca"]),
                      c0={"dt": rng.choice(DTS), "duration": rng.choice([0.0, 1.0, 2.0, 3.0]), "inplace": rng.random() < 0.5,
@@ -52,6 +56,8 @@ def generate(ctx):
                 v = rng.choice(DTS)
             elif k == "batchsz":
                 v = rng.randint(1, 4)
+            elif k == "maxdelay":
+                v = rng.choice([0.0, 1.0, 2.0, 3.0, 4.0, 2.5, 0.7])
             elif k == "delay":
                 v = rng.choice([0.0, 1.0, 2.0, 3.0, 4.0, 2.5, 0.7, 1.3, round(rng.uniform(0.0, 5.0), 3)])
             elif k == "duration":
@@ -148,14 +154,15 @@ class _Connection:
         self.d = d
 
     def build(self, c):
-        conn = fac.make_connection(self.d["conn"], c["dt"], syn=c["synapse"], B=c["batchsz"], delay=(2.0 if self.d["delayed"] else None),
+        conn = fac.make_connection(self.d["conn"], c["dt"], syn=c["synapse"], B=c["batchsz"],
+                                   delay=(c.get("maxdelay", 2.0) if self.d["delayed"] else None),
                                    dtype=(torch.float64 if c.get("dtype") else None))
         fac.randomize(conn, torch.Generator().manual_seed(self.d["seed"]), delay_steps=None)
         return conn
 
     def finalize(self, o):
         if self.d["delayed"]:
-            o.delay = torch.full_like(o.delay, min(2.0, o.dt))   # learned delays: same values on both twins
+            o.delay = torch.full_like(o.delay, min(2.0, o.dt, o.synapse.delay))   # learned delays: same values on both twins
 
     def set(self, o, k, v):
         if k == "dtype":
@@ -165,6 +172,8 @@ class _Connection:
             new = fac.synapse_ctor(v)(shape, o.dt, o.synapse.delay, o.batchsz)
             new.to(o.weight.dtype)
             o.synapse = new
+        elif k == "maxdelay":
+            o.synapse.delay = v
         else:
             setattr(o, k, v)
 
@@ -299,7 +308,8 @@ ADAPTERS = {"neuron": _Neuron, "synapse": _Synapse, "connection": _Connection, "
 AFFECTS = {
     "neuron": {"dt": ["dt"], "batchsz": ["batchsz", "batchedshape", "voltage_shape", "refrac_shape"], "dtype": ["dtype"]},
     "synapse": {"dt": ["dt"], "delay": ["delay"], "batchsz": ["batchsz", "current_shape"], "inplace": ["inplace"], "dtype": ["dtype"]},
-    "connection": {"dt": ["dt", "synapse_dt"], "batchsz": ["batchsz", "synapse_batchsz"], "synapse": ["synapse"], "dtype": ["dtype"]},
+    "connection": {"dt": ["dt", "synapse_dt"], "batchsz": ["batchsz", "synapse_batchsz"], "synapse": ["synapse"], "dtype": ["dtype"],
+                   "maxdelay": ["synapse_delay", "delayedby"]},
     "reducer": {"inclusive": ["inclusive"], "dt": ["dt", "decay"], "duration": ["duration"], "inplace": ["inplace"], "dtype": []},
     "layer": {"dt": ["connection_dt", "neuron_dt", "other0_dt", "other1_dt", "other2_dt"],
               "batchsz": ["connection_batchsz", "neuron_batchsz", "other0_batchsz", "other1_batchsz", "other2_batchsz"]},
@@ -314,7 +324,7 @@ def _expect(kind, k, v, d):
         return {"dt": {"dt": v}, "delay": {"delay": v}, "batchsz": {"batchsz": v}, "inplace": {"inplace": v}, "dtype": {"dtype": "torch.float64"}}[k]
     if kind == "connection":
         return {"dt": {"dt": v, "synapse_dt": v}, "batchsz": {"batchsz": v, "synapse_batchsz": v}, "synapse": {"synapse": SYNNAME.get(v)},
-                "dtype": {"dtype": "torch.float64"}}[k]
+                "dtype": {"dtype": "torch.float64"}, "maxdelay": {"synapse_delay": v, "delayedby": v}}[k]
     if kind == "reducer":
         return {"dt": {"dt": v}, "duration": {"duration": v}, "inplace": {"inplace": v}, "inclusive": {"inclusive": v}, "dtype": {}}[k]
     return {"dt": {"connection_dt": v, "neuron_dt": v}, "batchsz": {"connection_batchsz": v, "neuron_batchsz": v}}[k]
@@ -354,6 +364,8 @@ def run_case(ctx, desc):
         before = ad.observe(A)
         ctx.case(f"{kind}/{sub}/set_{k}")
         ctx.count("assignments_checked")
+        if k == "maxdelay":
+            ctx.count("connection_maximum_delay_assignments")
         try:
             ad.set(A, k, v)
             after = ad.observe(A)
